@@ -1806,6 +1806,11 @@ func genC11(g *G, sc *Scenario, tier string, seed uint64) {
 			return nil
 		case 4, 5:
 			m := map[string]any{"Type": "JavascriptTransform", "Code": js("function transform_entities(entities) { return entities; }")}
+			if g.P(0.3) {
+				// a transform that passes whatever the entities carry (scalars, lists, complete and incomplete nested
+				// entities) through the helper functions the hub implements in Go
+				m["Code"] = js("function transform_entities(entities) { var s = GetNamespacePrefix(\"" + ExS + "\"); var out = []; for (var i = 0; i < entities.length; i++) { var e = entities[i]; var sub = GetProperty(e, s, \"sub\"); var se = AsEntity(sub); var r = NewEntity(); SetId(r, GetId(e)); SetProperty(r, s, \"v\", GetProperty(e, s, \"v\", 0)); if (se != null) { SetProperty(r, s, \"subid\", GetId(se)); SetProperty(r, s, \"sub\", se); } SetProperty(r, s, \"str\", ToString(sub)); FindById(GetId(e)); Query([GetId(e)], \"*\", false, []); out.push(r); } return out; }")
+			}
 			if g.P(0.6) {
 				m["Parallelism"] = float64(g.PickInt([]int{0, 1, 2, 3, 4, 5, 8, -1}))
 			}
@@ -1899,7 +1904,18 @@ func genC11(g *G, sc *Scenario, tier string, seed uint64) {
 		return cfg
 	}
 	ent := func() Ent {
-		return Ent{"id": fmt.Sprintf("%se%d", MkE, g.Intn(10)), "props": map[string]any{MkS + "v": float64(g.Intn(1000))}, "refs": map[string]any{}}
+		e := Ent{"id": fmt.Sprintf("%se%d", MkE, g.Intn(10)), "props": map[string]any{MkS + "v": float64(g.Intn(1000))}, "refs": map[string]any{}}
+		if g.P(0.3) {
+			// what a nested value can look like in data that came in over HTTP or from another job
+			e["props"].(map[string]any)[MkS+"sub"] = []any{
+				map[string]any{"id": MkE + "n1", "props": map[string]any{MkS + "street": "a"}, "refs": map[string]any{}},
+				map[string]any{"id": MkE + "n2"},
+				map[string]any{"id": float64(5), "k": "v"},
+				map[string]any{"id": MkE + "n3", "props": map[string]any{}},
+				"plain", float64(7), []any{"a", float64(1)},
+			}[g.Intn(7)]
+		}
+		return e
 	}
 	for _, d := range data {
 		if g.P(0.8) {
